@@ -121,7 +121,7 @@ pub fn judge(_part: &str, case: &Case, tally: &mut Tally) -> Verdict {
     Verdict::Pass
 }
 
-fn gen_random(src: &mut Src, _i: usize) -> Case {
+pub fn gen_random(src: &mut Src, _i: usize) -> Case {
     let (cols, rows) = if src.chance(1, 25) { (*src.pick(&[80usize, 100]), *src.pick(&[24usize, 10])) } else { gen::small_size(src) };
     let mut g = G::new(cols, rows).no_alt().no_ris();
     g.w[gen::CAT_TEXT] = 14;
@@ -144,7 +144,7 @@ fn gen_random(src: &mut Src, _i: usize) -> Case {
 
 /// long wrapped paragraphs with the cursor on the first / middle / last row of a
 /// paragraph, then narrow to 1-3 columns or widen past the paragraph length
-fn gen_paragraphs(src: &mut Src, _i: usize) -> Case {
+pub fn gen_paragraphs(src: &mut Src, _i: usize) -> Case {
     let cols = src.range(2, 12);
     let rows = src.range(1, 7);
     let mut s = String::new();
